@@ -742,6 +742,34 @@ static inline std::vector<PQ> gen_substrs(Ctx &c) {
       v.push_back({p, cls});
   };
   size_t n = m.n;
+  // prefixes of the lexicographically greatest / smallest suffix of any member: the first and the last row of a suffix-sorted index
+  for (int which = 0; which < 2; which++) {
+    int ext = -1;
+    for (int x = 2; x <= 0xFE; x++)
+      if (m.present[x] && (ext < 0 || which == 0)) ext = x;   // which==0: greatest byte, which==1: smallest byte
+    const std::string *bs = NULL;
+    size_t bp = 0, cand = 0;
+    for (size_t i = 0; i < n && cand < 200000; i++) {
+      const std::string &s = m.S[i];
+      for (size_t k = 0; k < s.size(); k++) {
+        if ((unsigned char)s[k] != ext) continue;
+        cand++;
+        if (!bs) { bs = &s; bp = k; continue; }
+        int cmp;
+        size_t la = s.size() - k, lb = bs->size() - bp, q = 0;
+        while (q < la && q < lb && s[k + q] == (*bs)[bp + q]) q++;
+        if (q == la || q == lb) cmp = la < lb ? -1 : (la > lb ? 1 : 0);
+        else cmp = (unsigned char)s[k + q] < (unsigned char)(*bs)[bp + q] ? -1 : 1;
+        if ((which == 0 && cmp > 0) || (which == 1 && cmp < 0)) { bs = &s; bp = k; }
+      }
+    }
+    if (bs && cand < 200000) {
+      std::string suf = bs->substr(bp);
+      const char *cls = which == 0 ? "sub_greatest_suffix" : "sub_smallest_suffix";
+      for (size_t l = 1; l <= 4 && l <= suf.size(); l++) add(suf.substr(0, l), cls);
+      if (suf.size() <= 64) add(suf, cls);
+    }
+  }
   size_t reps = c.big ? 200 : 30;
   for (size_t t = 0; t < reps; t++) {
     size_t i = t < 4 && t < n ? (t % 2 ? n - 1 - t / 2 : t / 2) : r.below(n);
